@@ -203,7 +203,12 @@ func judge(l *mc.Local, c *fcase, o outcome, valid bool, want string, format goz
 		return
 	}
 	if o.err == nil {
-		if o.text != want && (o.upside || o.format != format) {
+		// EAN-8 has no mirror image: its left half uses only the odd-parity L codes, whose reversal
+		// has odd parity too and so is none of the even-parity R codes a right half is made of. An
+		// EAN-8 number delivered "upside down" from an EAN-8 row is therefore never a second reading
+		// of the same bars, it is a misread of a symbol whose check digit does not verify.
+		ean8Mirror := c.Kind == "ean8" && o.upside && o.format == gozxing.BarcodeFormat_EAN_8
+		if o.text != want && (o.upside || o.format != format) && !ean8Mirror {
 			// not the drawn number with its wrong check digit, but another, self-consistent reading of the
 			// same bars in a different framing (see the Assume text): counted and sampled, not judged
 			how := "as another format by the multi-format reader"
